@@ -253,8 +253,153 @@ def memory():
     return 'memory-and-arguments', '\n'.join(L), groups
 
 
+# ------------------------------------------------------------------ (4) displacements at the disp8 / disp32 / 32K boundaries
+def displacements():
+    groups, L = [], [PRELUDE]
+    L += ['struct sa { int a[30]; int m120; int m124; int m128; int m132; int fill[29]; int m252; int m256; };',
+          'struct sc { char c[126]; char m126; char m127; char m128; char m129; char m130; };',
+          'struct sh { short s[62]; short m124; short m126; short m128; short m130; };',
+          'struct sl { long l[14]; long m112; long m120; long m128; long m136; };',
+          'struct sb { int a[8190]; int m32760; int m32764; int m32768; int m32772; };',
+          'struct sa ga; struct sc gc; struct sh gh; struct sl gl; struct sb gb; struct sa gaa[3]; struct sl gla[3];',
+          'volatile int seed = 0x01020304;', 'volatile int vidx = 1;']
+    members = {'sa': ['m120', 'm124', 'm128', 'm132', 'm252', 'm256'], 'sc': ['m126', 'm127', 'm128', 'm129', 'm130'],
+               'sh': ['m124', 'm126', 'm128', 'm130'], 'sl': ['m112', 'm120', 'm128', 'm136'],
+               'sb': ['m32760', 'm32764', 'm32768', 'm32772']}
+    bits = {'sa': 32, 'sc': 8, 'sh': 16, 'sl': 64, 'sb': 32}
+    cty = {'sa': 'int', 'sc': 'char', 'sh': 'short', 'sl': 'long', 'sb': 'int'}
+    body = ['    int i, k;', '    struct sa la; struct sc lc; struct sh lh; struct sl ll;', '    int mid[80]; char cmid[300]; long lmid[40];']
+    for st, ms in members.items():
+        for m in ms:       # one store and one load function per member, through a pointer
+            L.append('void st_%s_%s(struct %s *p, %s v) { p->%s = v; }' % (st, m, st, cty[st], m))
+            L.append('%s ld_%s_%s(struct %s *p) { return p->%s; }' % (cty[st], st, m, st, m))
+            L.append('%s *ad_%s_%s(struct %s *p) { return &p->%s; }' % (cty[st], st, m, st, m))
+    val = lambda k: '(seed * %d + %d)' % (2 * k + 3, k)
+    for st, ms in members.items():
+        targets = [('global', 'g' + st[1]), ] + ([('local', 'l' + st[1])] if st != 'sb' else [])
+        for who, var in targets:
+            gid = len(groups)
+            groups.append('struct %s members %s of a %s object: direct store, load through pointer, store through pointer, '
+                          'direct load, address-of' % (st, '/'.join(ms), who))
+            body.append('    group(%d);' % gid)
+            for k, m in enumerate(ms):
+                body.append('    %s.%s = (%s)%s;' % (var, m, cty[st], val(k)))
+            for k, m in enumerate(ms):
+                body.append('    ' + P('ld_%s_%s(&%s)' % (st, m, var), bits[st]))
+            for k, m in enumerate(ms):
+                body.append('    st_%s_%s(&%s, (%s)%s);' % (st, m, var, cty[st], val(k + 7)))
+            for k, m in enumerate(ms):
+                body.append('    ' + P('%s.%s' % (var, m), bits[st]))
+            for k, m in enumerate(ms):
+                body.append('    *ad_%s_%s(&%s) = (%s)%s; ' % (st, m, var, cty[st], val(k + 13)) + P('*(&%s.%s)' % (var, m), bits[st]))
+                body.append('    ' + P('(long)((char *)&%s.%s - (char *)&%s)' % (var, m, var), 32))
+    for st, arr in (('sa', 'gaa'), ('sl', 'gla')):
+        gid = len(groups)
+        groups.append('array of struct %s: members at 120..256 of element [1] (constant index), [vidx] and [vidx-1]' % st)
+        body.append('    group(%d);' % gid)
+        for k, m in enumerate(members[st]):
+            body.append('    %s[1].%s = (%s)%s; %s[vidx - 1].%s = (%s)%s;' % (arr, m, cty[st], val(k + 20), arr, m, cty[st], val(k + 30)))
+        for k, m in enumerate(members[st]):
+            body.append('    ' + P('%s[vidx].%s' % (arr, m), bits[st]) + ' ' + P('%s[0].%s' % (arr, m), bits[st]) +
+                        ' ' + P('ld_%s_%s(&%s[vidx])' % (st, m, arr), bits[st]))
+    # negative displacements through p[-k]
+    negs = [('int', 'mid', 32, [31, 32, 33, 30, 1, 63, 64, 65]), ('char', 'cmid', 8, [124, 127, 128, 129, 132, 1, 255, 256, 257]),
+            ('long', 'lmid', 64, [15, 16, 17, 31, 32])]
+    for ty, arr, b, ks in negs:
+        for k in ks:
+            L.append('%s ldn_%s_%d(%s *p) { return p[-%d]; }' % (ty, arr, k, ty, k))
+            L.append('void stn_%s_%d(%s *p, %s v) { p[-%d] = v; }' % (arr, k, ty, ty, k))
+        n = {'mid': 80, 'cmid': 300, 'lmid': 40}[arr]
+        base = {'mid': 70, 'cmid': 280, 'lmid': 36}[arr]
+        gid = len(groups)
+        groups.append('%s *p: p[-k] load and store for k in %r (byte offsets %r)' % (ty, ks, [-k * b // 8 for k in ks]))
+        body.append('    group(%d);' % gid)
+        body.append('    for (i = 0; i < %d; i++) %s[i] = (%s)(seed + i * 3);' % (n, arr, ty))
+        for k in ks:
+            body.append('    ' + P('ldn_%s_%d(%s + %d)' % (arr, k, arr, base), b))
+        for j, k in enumerate(ks):
+            body.append('    stn_%s_%d(%s + %d, (%s)%s);' % (arr, k, arr, base, ty, val(j + 40)))
+        body.append('    for (i = 0; i < %d; i++) %s' % (n, P('%s[i]' % arr, b)))
+    # a frame whose slots cross -128 / +128 from the frame pointer: constant indices into locals, many stack arguments
+    # three small functions (ppci's interference graph is quadratic); store and load of an element next to each other
+    def frame_fn(name, decl, lines):
+        L.append('unsigned long %s(unsigned long s)\n{\n    %s unsigned long r = 0UL;\n%s\n    return r;\n}' % (name, decl, '\n'.join(lines)))
+    frame_fn('frame_a', 'volatile int a[72];',
+             ['    a[%d] = (int)(s + %dUL); r = r * 3UL + (unsigned long)a[%d];' % (k, k * 5 + 1, k) for k in range(72)]
+             + ['    r = r * 7UL + (unsigned long)a[%d];' % k for k in (0, 31, 32, 33, 71)])
+    cs = list(range(0, 20)) + list(range(118, 150))
+    frame_fn('frame_c', 'volatile unsigned char c[150];',
+             ['    c[%d] = (unsigned char)(s + %dUL); r = r * 5UL + (unsigned long)c[%d];' % (k, k, k) for k in cs]
+             + ['    r = r * 7UL + (unsigned long)c[%d];' % k for k in (0, 19, 127, 128, 129, 149)])
+    frame_fn('frame_w', 'volatile long w[20];',
+             ['    w[%d] = (long)(s * %dUL); r = r ^ ((unsigned long)w[%d] << %d);' % (k, k + 2, k, k) for k in range(20)]
+             + ['    r = r * 7UL + (unsigned long)w[%d];' % k for k in (0, 3, 4, 15, 16, 19)])
+    nargs = 30
+    L.append('unsigned long manyargs(%s)\n{ return %s; }' % (
+        ', '.join('unsigned long a%d' % k for k in range(nargs)),
+        ' ^ '.join('(a%d * %dUL)' % (k, 2 * k + 3) for k in range(nargs))))
+    L.append('unsigned long pickarg(int n, %s)\n{\n    switch (n) {\n%s\n    default: return 0UL; }\n}' % (
+        ', '.join('unsigned long a%d' % k for k in range(nargs)),
+        '\n'.join('    case %d: return a%d;' % (k, k) for k in range(nargs))))
+    gid = len(groups)
+    groups.append('frame with locals at constant offsets across +-128 from the frame pointer; 30 (stack) arguments')
+    body.append('    group(%d);' % gid)
+    for f in ('frame_a', 'frame_c', 'frame_w'):
+        body.append('    ' + P('%s((unsigned long)seed)' % f, 64) + ' ' + P('%s(3UL)' % f, 64))
+    args = ', '.join('(unsigned long)seed + %dUL' % (k * 1000003) for k in range(nargs))
+    body.append('    ' + P('manyargs(%s)' % args, 64))
+    body.append('    for (k = 0; k < %d; k++) %s' % (nargs, P('pickarg(k, %s)' % args, 64)))
+    # one small function per group (register allocation of one huge function is slow in ppci)
+    chunks = []
+    for line in body[3:]:
+        if line.startswith('    group('):
+            chunks.append([])
+        chunks[-1].append(line)
+    for n, ch in enumerate(chunks):
+        text = '\n'.join(ch)
+        decls = [d for d, names in ((body[0], ('i', 'k')), ('    struct sa la;', ('la',)), ('    struct sc lc;', ('lc',)),
+                                    ('    struct sh lh;', ('lh',)), ('    struct sl ll;', ('ll',)), ('    int mid[80];', ('mid',)),
+                                    ('    char cmid[300];', ('cmid',)), ('    long lmid[40];', ('lmid',)))
+                 if any(__import__('re').search(r'\b%s\b' % nm, text) for nm in names)]
+        L.append('void grp_%d(void)\n{\n%s\n%s\n}' % (n, '\n'.join(decls), text))
+    L.append('int entry(void)\n{\n    pos = 0;\n%s\n    return pos;\n}\n' % '\n'.join('    grp_%d();' % n for n in range(len(chunks))))
+    return 'displacement-boundaries', '\n'.join(L), groups
+
+
+# ------------------------------------------------------------------ (5) immediate operands at the imm8 / imm32 boundaries
+def immediates():
+    groups, L = [], [PRELUDE]
+    body = []
+    u64 = [0, 1, 0x7f, 0x80, 0xff, 0x100, 0x7fff, 0x8000, 0xffff, 0x10000, 0x7fffffff, 0x80000000, 0xF0000000, 0xffffffff,
+           0x100000000, 0x7fffffffffffffff, 0x8000000000000000, 0xffffffffffffff80, 0xffffffff80000000, 0xffffffffffffffff]
+    s64 = [0, 1, -1, 0x7f, 0x80, -128, -129, 0x7fff, 0x8000, -32768, -32769, 0x7fffffff, 0x80000000, -0x80000000, -0x80000001,
+           0xffffffff, 0x100000000, tmax(64, True), tmin(64, True)]
+    u32 = [c for c in u64 if c < (1 << 32)]
+    s32 = [c for c in s64 if tmin(32, True) <= c <= tmax(32, True)]
+    for (n, t, b, s), pool in ((TYPES[4], s32), (TYPES[5], u32), (TYPES[6], s64), (TYPES[7], u64)):
+        xs = boundary(b, s) + ([0x12345678, 0x7ffffff0] if b == 32 else [0x123456789abcdef0 if not s else 0x123456789abcdef0 >> 1, 0x80000000, 0xffffffff])
+        L.append('volatile %s x_%s[%d] = {%s};' % (n, t, len(xs), ', '.join(lit(v, n, b, s) for v in xs)))
+        for k, c in enumerate(pool):
+            cl = lit(c, n, b, s)
+            ops = ['&', '|', '^'] + (['+', '-', '*'] if not s else [])
+            lines = ['void imm_%s_%d(%s x)' % (t, k, n), '{']
+            for op in ops:
+                lines.append('    ' + P('x %s %s' % (op, cl), b))
+            for op in ('<', '==', '>='):
+                lines.append('    ' + P('(unsigned)(x %s %s)' % (op, cl), 8))
+            if c not in (0, -1):
+                lines.append('    ' + P('x / %s' % cl, b) + ' ' + P('x %% %s' % cl, b))
+            lines.append('}')
+            L.append('\n'.join(lines))
+            gid = len(groups)
+            groups.append('%s x OP constant %s (%s): & | ^%s < == >= / %%' % (n, hex(c), cl, ' + - *' if not s else ''))
+            body.append('    group(%d); for (i = 0; i < %d; i++) imm_%s_%d(x_%s[i]);' % (gid, len(xs), t, k, t))
+    L.append('int entry(void)\n{\n    int i;\n    pos = 0;\n%s\n    return pos;\n}\n' % '\n'.join(body))
+    return 'immediate-operands', '\n'.join(L), groups
+
+
 def programs():
-    return [conversions(), operators(), memory()]
+    return [conversions(), operators(), memory(), displacements(), immediates()]
 
 
 def first_difference(groups, want, got):
